@@ -398,12 +398,15 @@ func isIDType(t *ast.Type) bool {
 	return isNonNullableTypeNamed(t, "ID")
 }
 
+// isNonNullableTypeNamed is true for `typename!` only: a list (`[typename!]!`) has the
+// same Name() but is another type
 func isNonNullableTypeNamed(t *ast.Type, typename string) bool {
-	return t.Name() == typename && t.NonNull
+	return t.Elem == nil && t.Name() == typename && t.NonNull
 }
 
+// isNullableTypeNamed is true for `typename` only, not for a list of it
 func isNullableTypeNamed(t *ast.Type, typename string) bool {
-	return t.Name() == typename && !t.NonNull
+	return t.Elem == nil && t.Name() == typename && !t.NonNull
 }
 
 func isNodeField(f *ast.FieldDefinition) bool {
